@@ -218,10 +218,37 @@ Proof.
     pose proof (slice_indices_in_axis n a b s idx H) as F. rewrite Forall_forall in F.
     apply in_axis_zvalid. exact (F z Hz).
   - destruct (forallb (zvalid n) l) eqn:E; [|discriminate]. intros H. inversion H; subst idx. exact E.
-  - unfold mask_indices. destruct (Nat.eqb_spec (length m) n) as [E|]; [|discriminate].
+  - (* repair: mask_indices accepts the empty mask on every axis (numpy: a size-0 boolean index selects nothing) *)
+    unfold mask_indices. destruct m as [|b0 m0]; [intros H; inversion H; reflexivity|].
+    set (m := b0 :: m0). destruct (Nat.eqb_spec (length m) n) as [E|]; [|discriminate].
     intros H. inversion H; subst idx. apply forallb_forall. intros z Hz.
     apply in_axis_zvalid. pose proof (mask_positions_range m 0 z Hz). unfold in_axis. lia.
 Qed.
+
+(* repair (tie C08): a boolean index is accepted iff it has the length of the axis OR is empty (numpy accepts a
+   size-0 boolean index on an axis of any length and selects nothing); otherwise IndexError *)
+Lemma mask_indices_ok_iff n m idx :
+  mask_indices n m = GOk idx <-> (length m = n \/ m = []) /\ idx = mask_positions 0 m.
+Proof.
+  unfold mask_indices. destruct m as [|b m'].
+  - split; [intros H; inversion H; split; [right|]; reflexivity | intros [_ ->]; reflexivity].
+  - destruct (Nat.eqb_spec (length (b :: m')) n) as [E|E].
+    + split; [intros H; inversion H; split; [left; exact E | reflexivity] | intros [_ ->]; reflexivity].
+    + split; [discriminate | intros [[H|H] _]; [contradiction | discriminate]].
+Qed.
+
+Lemma mask_indices_raises_iff n m e :
+  mask_indices n m = GRaise e <-> e = EIndex /\ length m <> n /\ m <> [].
+Proof.
+  unfold mask_indices. destruct m as [|b m'].
+  - split; [discriminate | intros (_ & _ & H); contradiction].
+  - destruct (Nat.eqb_spec (length (b :: m')) n) as [E|E].
+    + split; [discriminate | intros (_ & H & _); contradiction].
+    + split; [intros H; inversion H; repeat split; [exact E | discriminate] | intros (-> & _); reflexivity].
+Qed.
+
+Lemma mask_indices_empty n : mask_indices n [] = GOk [].
+Proof. reflexivity. Qed.
 
 Lemma all_points_valid n : forallb (zvalid n) (all_points n) = true.
 Proof.
@@ -618,7 +645,11 @@ Section Rejections.
         * replace (1 <? 1 + count_none sel) with true by (symmetry; apply Nat.ltb_lt; lia).
           exists EIndex. split; [discriminate | reflexivity].
         * exists EIndex. split; [discriminate | reflexivity].
-      + cbn [expand_multi]. unfold mask_indices. destruct (length m =? ma_numpoints o); cbn [rbind].
+      + cbn [expand_multi]. unfold mask_indices.
+        destruct m as [|b0 m0]; [|destruct (length (b0 :: m0) =? ma_numpoints o)]; cbn [rbind].
+        * (* the empty mask (accepted on every axis) with a None: the guard's IndexError *)
+          replace (1 <? 1 + count_none sel) with true by (symmetry; apply Nat.ltb_lt; lia).
+          exists EIndex. split; [discriminate | reflexivity].
         * replace (1 <? 1 + count_none sel) with true by (symmetry; apply Nat.ltb_lt; lia).
           exists EIndex. split; [discriminate | reflexivity].
         * exists EIndex. split; [discriminate | reflexivity].
